@@ -712,6 +712,9 @@ func (sc *SpecCtx) call(e *Expr) Value {
 			// ghost state of an embedded object (a mutex, a WaitGroup field) is keyed by its owner
 			a = Value{K: VRef, T: a.A.Root}
 		}
+		if a.T == "" {
+			sc.fail("ghost %s needs a reference argument (use addrof(x) for a local struct variable)", g.Name)
+		}
 		sort, _ := ghostSort(g)
 		h := st.heapTermIn(sc.cur, "ghost:"+g.Name, 1, sort)
 		return Value{K: sortKind(sort), T: "(select " + h + " " + a.T + ")", Ty: ghostType(g)}
